@@ -90,6 +90,47 @@ func skeleton(fd *ast.FuncDecl) []string {
 	return out
 }
 
+// skeletonWithCalls is skeleton plus, in source order, the calls to the named helpers.
+func skeletonWithCalls(fd *ast.FuncDecl, helpers []string) []string {
+	if fd == nil || fd.Body == nil {
+		return []string{"<missing>"}
+	}
+	want := map[string]bool{}
+	for _, h := range helpers {
+		want[h] = true
+	}
+	var out []string
+	ast.Inspect(fd.Body, func(n ast.Node) bool {
+		switch x := n.(type) {
+		case *ast.DeferStmt:
+			if s, ok := x.Call.Fun.(*ast.SelectorExpr); ok && len(x.Call.Args) == 0 {
+				switch s.Sel.Name {
+				case "Unlock", "RUnlock":
+					out = append(out, "defer "+strings.ToLower(s.Sel.Name)+" "+exprString(s.X))
+					return false
+				}
+			}
+		case *ast.CallExpr:
+			if s, ok := x.Fun.(*ast.SelectorExpr); ok {
+				switch s.Sel.Name {
+				case "Lock", "Unlock", "RLock", "RUnlock":
+					if len(x.Args) == 0 {
+						out = append(out, strings.ToLower(s.Sel.Name)+" "+exprString(s.X))
+					}
+				default:
+					if want[s.Sel.Name] {
+						out = append(out, "call "+s.Sel.Name)
+					}
+				}
+			} else if id, ok := x.Fun.(*ast.Ident); ok && want[id.Name] {
+				out = append(out, "call "+id.Name)
+			}
+		}
+		return true
+	})
+	return out
+}
+
 func coqStrList(l []string) string {
 	q := make([]string, len(l))
 	for i, s := range l {
